@@ -204,6 +204,9 @@ func runC17(c *Ctx) {
 	checkTimesAreUnsigned32(c, "R8")
 	checkLongNameOwnerPairs(c, "R11")
 	checkFileInfoIsDirAgreesWithMode(c, "R12")
+	// R13 (= C10.R18): the handler's FileInfo overrides are consulted for every entry
+	checkOverrideInterfacesConsulted(c, "R13")
+	checkUnresolvedIDShownAsNumber(c, "R14")
 	// R9 (shared with C07.R6): the attribute bytes a set-attributes request hands to the server or to the handler are
 	// the bytes its decoder validated against the flags word
 	checkAttrsValidatedAtDecode(c, "R9")
@@ -1795,4 +1798,57 @@ func checkFileInfoIsDirAgreesWithMode(c *Ctx, rule string) {
 		return
 	}
 	c.check(wrong == "", rule, "fileInfo.IsDir is true for directories alone", p.Pos(isDir.Pos()), "evaluated for the 16 values of the type field", wrong+": the entry's IsDir() disagrees with its Mode() (Walk, RemoveAll and Glob descend into things that are not directories, or skip directories)")
+}
+
+
+// checkUnresolvedIDShownAsNumber (C17.R14): the long name of an entry shows the owner the attributes carry.  The
+// built-in name lookup answers with the name it found or, when the id has no entry, with the id it was given (as ls -n
+// does) — every result of LookupUserName/LookupGroupName is its parameter or a field of what the lookup returned, never
+// a constant placeholder (looked for through one level of helper).
+func checkUnresolvedIDShownAsNumber(c *Ctx, rule string) {
+	p := c.P
+	n := 0
+	var leafOK func(fn *ssa.Function, d int) (bool, string)
+	leafOK = func(fn *ssa.Function, d int) (bool, string) {
+		for _, lf := range returnLeavesDeep(fn, 0) {
+			switch x := lf.v.(type) {
+			case *ssa.Parameter:
+				continue
+			case *ssa.UnOp:
+				if _, ok := x.X.(*ssa.FieldAddr); ok {
+					continue
+				}
+			case *ssa.Field:
+				continue
+			case *ssa.Call:
+				if f := x.Call.StaticCallee(); f != nil && inModule(f) && d < 2 {
+					if ok, why := leafOK(f, d+1); ok {
+						continue
+					} else {
+						return false, why
+					}
+				}
+			case *ssa.Const:
+				return false, "the constant " + x.String()
+			}
+			return false, lf.v.String()
+		}
+		return true, ""
+	}
+	for _, fn := range p.LibFuncs() {
+		if outermost(fn) != fn || fn.Signature.Recv() == nil || fn.Package() != p.Sftp {
+			continue
+		}
+		if fn.Name() != "LookupUserName" && fn.Name() != "LookupGroupName" {
+			continue
+		}
+		if fn.Signature.Params().Len() != 1 || len(fn.Blocks) == 0 {
+			continue
+		}
+		n++
+		ok, why := leafOK(fn, 0)
+		c.check(ok, rule, "results of "+fnName(fn), p.Pos(fn.Pos()), "the name found, or the id that was asked for",
+			"a result is neither the id asked for nor a field of what the lookup found ("+why+"): an owner without an entry in the user database is shown as something else than the number its attributes carry")
+	}
+	c.floor(rule, 2)
 }
